@@ -279,3 +279,160 @@ theorem propsB_mem {g : Schema → Id → Bool} {σ : Space} {fields : List Fiel
     · exact ih h.2 q hq
 
 end TypifyModel.Conv
+
+namespace TypifyModel.Conv
+open TypifyModel TypifyModel.Serde TypifyModel.Validate
+
+theorem nodupB_find_gen {α : Type} (key : α → String) {l : List α} :
+    nodupB (l.map key) = true → ∀ a ∈ l, l.find? (fun q => key q == key a) = some a := by
+  induction l with
+  | nil => intro _ a ha; simp at ha
+  | cons b r ih =>
+    intro h a ha
+    simp only [List.map_cons, nodupB, Bool.and_eq_true, Bool.not_eq_true'] at h
+    simp only [List.mem_cons] at ha
+    rcases ha with rfl | ha
+    · simp [List.find?]
+    · have hne : (key b == key a) = false := by
+        apply Bool.eq_false_iff.mpr
+        intro heq
+        have hw : key b = key a := by simpa using heq
+        have hc : (r.map key).contains (key b) = true := by
+          rw [hw]
+          simp only [List.contains_eq_mem, List.mem_map, decide_eq_true_eq]
+          exact ⟨a, ha, rfl⟩
+        rw [h.1] at hc; exact absurd hc (by simp)
+      simp only [List.find?, hne]
+      exact ih h.2 a ha
+
+theorem find_findIdx {α : Type} {p : α → Bool} :
+    ∀ {l : List α} {a : α}, l.find? p = some a → ∃ i, l.findIdx? p = some i ∧ l[i]? = some a := by
+  intro l
+  induction l with
+  | nil => intro a h; simp at h
+  | cons b r ih =>
+    intro a h
+    simp only [List.find?] at h
+    by_cases hb : p b = true
+    · simp only [hb] at h
+      simp only [Option.some.injEq] at h; subst h
+      exact ⟨0, by simp [List.findIdx?_cons, hb], by simp⟩
+    · have hb' : p b = false := by simpa using hb
+      simp only [hb'] at h
+      obtain ⟨i, hi, hg⟩ := ih h
+      exact ⟨i + 1, by simp [List.findIdx?_cons, hb', hi], by simpa using hg⟩
+
+end TypifyModel.Conv
+
+namespace TypifyModel.Conv
+open TypifyModel TypifyModel.Serde TypifyModel.Validate
+
+theorem lookup_mem {kvs : List (String × Json)} {k : String} {j : Json}
+    (h : Json.lookup kvs k = some j) : (k, j) ∈ kvs := by
+  induction kvs with
+  | nil => simp [Json.lookup] at h
+  | cons a r ih =>
+    obtain ⟨k', v'⟩ := a
+    simp only [Json.lookup] at h
+    split at h
+    · rename_i hk; simp only [Option.some.injEq] at h; subst h; subst hk; simp
+    · simp [ih h]
+
+theorem lookup_erase_ne {kvs : List (String × Json)} {k r : String} (hne : r ≠ k) :
+    Json.lookup (Json.erase kvs k) r = Json.lookup kvs r := by
+  induction kvs with
+  | nil => rfl
+  | cons a rest ih =>
+    obtain ⟨k', v'⟩ := a
+    simp only [Json.erase, List.filter] at ih ⊢
+    by_cases hk : k' = k
+    · subst hk
+      have : (decide (k' ≠ k')) = false := by simp
+      simp only [this]
+      simp only [Json.lookup]
+      have : ¬ k' = r := fun h => hne h.symm
+      simp only [this, if_false]
+      exact ih
+    · have : (decide (k' ≠ k)) = true := by simp [hk]
+      simp only [this, Json.lookup]
+      split
+      · rfl
+      · exact ih
+
+theorem lookup_erase_self {kvs : List (String × Json)} {k : String} :
+    Json.lookup (Json.erase kvs k) k = none := by
+  induction kvs with
+  | nil => rfl
+  | cons a rest ih =>
+    obtain ⟨k', v'⟩ := a
+    simp only [Json.erase, List.filter] at ih ⊢
+    by_cases hk : k' = k
+    · subst hk
+      have : (decide (k' ≠ k')) = false := by simp
+      simp only [this]; exact ih
+    · have : (decide (k' ≠ k)) = true := by simp [hk]
+      simp only [this, Json.lookup, hk, if_false]
+      exact ih
+
+theorem find_filter_ne {props : List (String × Schema)} {tg key : String} (hne : key ≠ tg) :
+    (props.filter (fun p => p.1 != tg)).find? (fun p => p.1 == key) = props.find? (fun p => p.1 == key) := by
+  induction props with
+  | nil => rfl
+  | cons a r ih =>
+    simp only [List.filter]
+    by_cases ha : a.1 = tg
+    · have h1 : (a.1 != tg) = false := by simp [ha]
+      have h2 : (a.1 == key) = false := by
+        simp only [beq_eq_false_iff_ne, ne_eq]; intro h; exact hne (h ▸ ha)
+      simp only [h1, List.find?, h2]
+      exact ih
+    · have h1 : (a.1 != tg) = true := by simp [ha]
+      simp only [h1, List.find?]
+      split
+      · rfl
+      · exact ih
+
+theorem membersV_erase {g : Schema → Json → Option Bool} {props : List (String × Schema)}
+    {addl : Additional Schema} {tg : String} :
+    ∀ {kvs : List (String × Json)}, membersV g props addl kvs = some true →
+      membersV g (props.filter (fun p => p.1 != tg)) addl (Json.erase kvs tg) = some true := by
+  intro kvs
+  induction kvs with
+  | nil => intro _; rfl
+  | cons a r ih =>
+    intro h
+    obtain ⟨k, v⟩ := a
+    simp only [membersV] at h
+    obtain ⟨h1, h2⟩ := and3_true h
+    simp only [Json.erase, List.filter] at ih ⊢
+    by_cases hk : k = tg
+    · have : (decide (k ≠ tg)) = false := by simp [hk]
+      simp only [this]
+      exact ih h2
+    · have : (decide (k ≠ tg)) = true := by simp [hk]
+      simp only [this, membersV]
+      rw [find_filter_ne hk]
+      have h2' := ih h2
+      revert h1 h2'
+      generalize (match props.find? (fun p => p.1 == k) with
+          | some (_, s) => g s v
+          | none =>
+            match addl with
+            | .open_ => some true
+            | .closed => some false
+            | .schema s => g s v) = a
+      intro h1 h2'
+      rw [h1, h2']
+      rfl
+
+theorem req_erase {req : List String} {kvs : List (String × Json)} {tg : String}
+    (h : req.all (fun r => (Json.lookup kvs r).isSome) = true) :
+    (req.filter (· != tg)).all (fun r => (Json.lookup (Json.erase kvs tg) r).isSome) = true := by
+  apply List.all_eq_true.mpr
+  intro r hr
+  obtain ⟨hrm, hne⟩ := List.mem_filter.mp hr
+  have hne' : r ≠ tg := by simpa using hne
+  rw [lookup_erase_ne hne']
+  exact (List.all_eq_true.mp h) r hrm
+
+end TypifyModel.Conv
